@@ -247,6 +247,38 @@ func (t *Tx) SortUnconfirmedTx() (map[string]*pb.Transaction, TxGraph, map[strin
 			txGraph[refTxID] = append(txGraph[refTxID], txID)
 		}
 	}
+	// a tx that only READS a key version must be ordered before the tx that
+	// overwrites that version, otherwise a block built in this order cannot be
+	// replayed by a node that has not seen the transactions
+	overwriter := map[string]string{} // bucket/key@version -> txid superseding it
+	for txID, tx := range txMap {
+		written := map[string]bool{}
+		for _, txOut := range tx.TxOutputsExt {
+			written[txOut.Bucket+"/"+string(txOut.Key)] = true
+		}
+		for _, txIn := range tx.TxInputsExt {
+			key := txIn.Bucket + "/" + string(txIn.Key)
+			if written[key] {
+				overwriter[fmt.Sprintf("%s@%x_%d", key, txIn.RefTxid, txIn.RefOffset)] = txID
+			}
+		}
+	}
+	for txID, tx := range txMap {
+		written := map[string]bool{}
+		for _, txOut := range tx.TxOutputsExt {
+			written[txOut.Bucket+"/"+string(txOut.Key)] = true
+		}
+		for _, txIn := range tx.TxInputsExt {
+			key := txIn.Bucket + "/" + string(txIn.Key)
+			if written[key] {
+				continue
+			}
+			writerID, exist := overwriter[fmt.Sprintf("%s@%x_%d", key, txIn.RefTxid, txIn.RefOffset)]
+			if exist && writerID != txID {
+				txGraph[txID] = append(txGraph[txID], writerID)
+			}
+		}
+	}
 	txMapSize := int64(len(txMap))
 	if txMapSize > 0 {
 		avgDelay := totalDelay / txMapSize //平均unconfirm滞留时间
